@@ -20,24 +20,24 @@ objects visited, exactly unless the option that names them is set; a reference w
 the only errors dropped are those of the headers of an encoding object; every component name is checked -/
 def TableOK (T : Table) : Bool :=
   extKinds.all (fun k => alwaysHolds (rowsFor T.checks k "extensions")) &&
-  (rowsFor T.checks .schema "default" == [["-schemaDefaultsValidationDisabled"]]) &&
-  (rowsFor T.checks .schema "example" == [["-examplesValidationDisabled"]]) &&
+  holdsAs (rowsFor T.checks .schema "default") (fun _ d _ _ => !d) &&
+  holdsAs (rowsFor T.checks .schema "example") (fun e _ _ _ => !e) &&
   exampleKinds.all (fun k =>
-    (rowsFor T.checks k "example" == [["-examplesValidationDisabled"]]) &&
-    (rowsFor T.checks k "examples" == [["-examplesValidationDisabled"]]) &&
-    (rowsFor T.edges k "examples" == [["-examplesValidationDisabled"]])) &&
+    holdsAs (rowsFor T.checks k "example") (fun e _ _ _ => !e) &&
+    holdsAs (rowsFor T.checks k "examples") (fun e _ _ x => !e && !(k == .parameter && x)) &&
+    holdsAs (rowsFor T.edges k "examples") (fun e _ s x => !e && s && !(k == .parameter && x))) &&
   (rowsFor T.edges .exampleRef "value").contains [] &&
   (T.swallows == [(.encoding, "identifier:headers", []), (.encoding, "headers", [])]) &&
   componentPositions.all (fun p => (rowsFor T.checks .components ("identifier:" ++ p)).contains [])
 
 structure TableFacts (T : Table) : Prop where
   ext : ∀ k ∈ extKinds, alwaysHolds (rowsFor T.checks k "extensions") = true
-  sDefault : rowsFor T.checks .schema "default" = [["-schemaDefaultsValidationDisabled"]]
-  sExample : rowsFor T.checks .schema "example" = [["-examplesValidationDisabled"]]
+  sDefault : holdsAs (rowsFor T.checks .schema "default") (fun _ d _ _ => !d) = true
+  sExample : holdsAs (rowsFor T.checks .schema "example") (fun e _ _ _ => !e) = true
   ex : ∀ k ∈ exampleKinds,
-    rowsFor T.checks k "example" = [["-examplesValidationDisabled"]] ∧
-    rowsFor T.checks k "examples" = [["-examplesValidationDisabled"]] ∧
-    rowsFor T.edges k "examples" = [["-examplesValidationDisabled"]]
+    holdsAs (rowsFor T.checks k "example") (fun e _ _ _ => !e) = true ∧
+    holdsAs (rowsFor T.checks k "examples") (fun e _ _ x => !e && !(k == .parameter && x)) = true ∧
+    holdsAs (rowsFor T.edges k "examples") (fun e _ s x => !e && s && !(k == .parameter && x)) = true
   exRef : (rowsFor T.edges .exampleRef "value").contains [] = true
   swallows : T.swallows = [(.encoding, "identifier:headers", []), (.encoding, "headers", [])]
   ident : ∀ p ∈ componentPositions, (rowsFor T.checks .components ("identifier:" ++ p)).contains [] = true
@@ -48,29 +48,37 @@ theorem tableFacts (T : Table) (hT : TableOK T = true) : TableFacts T := by
   obtain ⟨⟨⟨⟨⟨⟨h1, h2⟩, h3⟩, h4⟩, h5⟩, h6⟩, h7⟩ := hT
   exact ⟨h1, h2, h3, fun k hk => ⟨(h4 k hk).1.1, (h4 k hk).1.2, (h4 k hk).2⟩, h5, h6, h7⟩
 
-theorem anyHolds_of_nil (o : Opts) (gss : List (List String)) (h : gss.contains [] = true) :
-    anyHolds o gss = true := by
+theorem anyHolds_of_nil (o : Opts) (a : Attrs) (gss : List (List String)) (h : gss.contains [] = true) :
+    anyHolds o a gss = true := by
   unfold anyHolds
   rw [List.any_eq_true]
   exact ⟨[], by simpa using h, by simp [guardsHold]⟩
 
-theorem litHolds_two (o : Opts) (l : String) :
-    litHolds o l = litHolds { exDisabled := o.exDisabled, defDisabled := o.defDisabled } l := by
-  unfold litHolds; split <;> rfl
+theorem mkA_schema (s x : Bool) : (mkA s x).flag "hasSchema" = s := by cases s <;> cases x <;> decide
+theorem mkA_example (s x : Bool) : (mkA s x).flag "hasExample" = x := by cases s <;> cases x <;> decide
 
-theorem anyHolds_two (o : Opts) (gss : List (List String)) :
-    anyHolds o gss = anyHolds { exDisabled := o.exDisabled, defDisabled := o.defDisabled } gss := by
-  have hl : litHolds o = litHolds { exDisabled := o.exDisabled, defDisabled := o.defDisabled } :=
-    funext (litHolds_two o)
+theorem litHolds_four (o : Opts) (a : Attrs) (l : String) :
+    litHolds o a l = litHolds (mkO o.exDisabled o.defDisabled) (mkA (a.flag "hasSchema") (a.flag "hasExample")) l := by
+  unfold litHolds; split <;> simp [mkO, mkA_schema, mkA_example]
+
+theorem anyHolds_four (o : Opts) (a : Attrs) (gss : List (List String)) :
+    anyHolds o a gss = anyHolds (mkO o.exDisabled o.defDisabled) (mkA (a.flag "hasSchema") (a.flag "hasExample")) gss := by
+  have hl : litHolds o a = litHolds (mkO o.exDisabled o.defDisabled) (mkA (a.flag "hasSchema") (a.flag "hasExample")) :=
+    funext (litHolds_four o a)
   unfold anyHolds guardsHold
   rw [hl]
 
-theorem anyHolds_of_always (o : Opts) (gss : List (List String)) (h : alwaysHolds gss = true) :
-    anyHolds o gss = true := by
-  rw [anyHolds_two]
-  unfold alwaysHolds at h
-  simp only [List.all_cons, List.all_nil, Bool.and_true, Bool.and_eq_true] at h
-  cases he : o.exDisabled <;> cases hd : o.defDisabled <;> simp_all
+/-- what `holdsAs` decides over the sixteen valuations holds for every option set and every node -/
+theorem anyHolds_as (o : Opts) (a : Attrs) (gss : List (List String)) (f : Bool → Bool → Bool → Bool → Bool)
+    (h : holdsAs gss f = true) :
+    anyHolds o a gss = f o.exDisabled o.defDisabled (a.flag "hasSchema") (a.flag "hasExample") := by
+  rw [anyHolds_four]
+  unfold holdsAs at h
+  simp only [List.all_cons, List.all_nil, Bool.and_true, Bool.and_eq_true, beq_iff_eq] at h
+  cases o.exDisabled <;> cases o.defDisabled <;> cases a.flag "hasSchema" <;> cases a.flag "hasExample" <;> simp_all
+
+theorem anyHolds_of_always (o : Opts) (a : Attrs) (gss : List (List String)) (h : alwaysHolds gss = true) :
+    anyHolds o a gss = true := anyHolds_as o a gss _ h
 
 theorem all_when (o : Opts) (c : Bool) (r k : String) :
     ((when c r k).all fun v => !enabled o v) = (!c || !enabled o ⟨r, k⟩) := by
@@ -93,7 +101,7 @@ theorem checkExt_eq (T : Table) (o : Opts) (d : Doc) (hT : TableOK T = true) (hk
     checkExt T o d = extKeysOK o d.attrs.exts := by
   have h := (tableFacts T hT).ext d.kind hk
   unfold checkExt hasCheck
-  rw [anyHolds_of_always o _ h]; rfl
+  rw [anyHolds_of_always o _ _ h]; rfl
 
 def specialRules : List String :=
   ["extraField", "refSibling", "refExtension", "exampleMismatch", "defaultMismatch", "unknownFormat", "badPattern"]
